@@ -105,41 +105,58 @@ pub struct Templates {
 }
 
 pub fn templates(addr: u32) -> Templates {
-    let air = Message::try_from(df17(5, addr, &me_bds05(11, 0, 0, ac12_q(10000), 0, 0, 0, 0), 0).as_slice()).expect("airborne template");
-    let sfc = Message::try_from(df17(5, addr, &me_bds06(7, 20, 1, 10, 0, 0, 0, 0), 0).as_slice()).expect("surface template");
+    templates_on(addr, 17)
+}
+
+/// df = 17: ADS-B; df = 18: TIS-B / ADS-R carrier (control field 2) of the same position messages
+pub fn templates_on(addr: u32, df: u8) -> Templates {
+    let (a, s) = (me_bds05(11, 0, 0, ac12_q(10000), 0, 0, 0, 0), me_bds06(7, 20, 1, 10, 0, 0, 0, 0));
+    let air = Message::try_from(if df == 17 { df17(5, addr, &a, 0) } else { df18(2, addr, &a, 0) }.as_slice()).expect("airborne template");
+    let sfc = Message::try_from(if df == 17 { df17(5, addr, &s, 0) } else { df18(2, addr, &s, 0) }.as_slice()).expect("surface template");
     Templates { air, sfc }
+}
+
+fn me_mut(m: &mut Message) -> Option<&mut ME> {
+    match &mut m.df {
+        DF::ExtendedSquitterADSB(a) => Some(&mut a.message),
+        DF::ExtendedSquitterTisB { cf, .. } => Some(&mut cf.me),
+        _ => None,
+    }
+}
+
+fn me_ref(m: &Message) -> Option<&ME> {
+    match &m.df {
+        DF::ExtendedSquitterADSB(a) => Some(&a.message),
+        DF::ExtendedSquitterTisB { cf, .. } => Some(&cf.me),
+        _ => None,
+    }
 }
 
 fn make_msg(tp: &Templates, surface: bool, odd: bool, yz: u32, xz: u32) -> Message {
     let mut m = if surface { tp.sfc.clone() } else { tp.air.clone() };
     let par = if odd { CPRFormat::Odd } else { CPRFormat::Even };
-    if let DF::ExtendedSquitterADSB(a) = &mut m.df {
-        match &mut a.message {
-            ME::BDS05(p) => {
-                p.lat_cpr = yz;
-                p.lon_cpr = xz;
-                p.parity = par;
-            }
-            ME::BDS06(p) => {
-                p.lat_cpr = yz;
-                p.lon_cpr = xz;
-                p.parity = par;
-            }
-            _ => {}
+    match me_mut(&mut m) {
+        Some(ME::BDS05(p)) => {
+            p.lat_cpr = yz;
+            p.lon_cpr = xz;
+            p.parity = par;
         }
+        Some(ME::BDS06(p)) => {
+            p.lat_cpr = yz;
+            p.lon_cpr = xz;
+            p.parity = par;
+        }
+        _ => {}
     }
     m
 }
 
 fn position_of(m: &Message) -> Option<(f64, f64)> {
-    if let DF::ExtendedSquitterADSB(a) = &m.df {
-        match &a.message {
-            ME::BDS05(p) => return p.latitude.zip(p.longitude),
-            ME::BDS06(p) => return p.latitude.zip(p.longitude),
-            _ => {}
-        }
+    match me_ref(m) {
+        Some(ME::BDS05(p)) => p.latitude.zip(p.longitude),
+        Some(ME::BDS06(p)) => p.latitude.zip(p.longitude),
+        _ => None,
     }
-    None
 }
 
 pub struct Report1 {
@@ -215,7 +232,20 @@ pub fn traj_from_json(v: &Value) -> Traj {
 
 /// Judge one single-aircraft history; returns the number of reports that got a position
 pub fn check(tr: &Traj, tp: &Templates, steps: &[Step], rep: &Report) -> Option<usize> {
-    let reports = build(tr, tp, steps)?;
+    check_mixed(tr, tp, None, steps, rep)
+}
+
+/// `alt`: templates of a second carrier used for every other report (same address: the same aircraft)
+pub fn check_mixed(tr: &Traj, tp: &Templates, alt: Option<&Templates>, steps: &[Step], rep: &Report) -> Option<usize> {
+    let mut reports = build(tr, tp, steps)?;
+    if let Some(alt) = alt {
+        let other = build(tr, alt, steps)?;
+        for (k, o) in other.into_iter().enumerate() {
+            if k % 2 == 1 {
+                reports[k] = o;
+            }
+        }
+    }
     let refs: Vec<&Report1> = reports.iter().collect();
     let got = match run_decoder(&refs, tr.reference()) {
         Ok(g) => g,
@@ -316,8 +346,10 @@ pub fn gaps(tr: &Traj, thorough: bool) -> Vec<f64> {
 }
 
 #[allow(clippy::too_many_arguments)]
-fn explore_traj(tr: &Traj, min_len: usize, depth: usize, thorough: bool, core_only: bool, rep: &Report, total: &AtomicU64, steps_total: &AtomicU64, fixes_hist: &std::sync::Mutex<[u64; 8]>, pruned: &AtomicU64) {
-    let tp = templates(0x4840d6);
+fn explore_traj(tr: &Traj, min_len: usize, depth: usize, thorough: bool, core_only: bool, carrier: u8, rep: &Report, total: &AtomicU64, steps_total: &AtomicU64, fixes_hist: &std::sync::Mutex<[u64; 8]>, pruned: &AtomicU64) {
+    // carrier 0: DF17; 1: DF18 (TIS-B / ADS-R); 2: DF17 and DF18 alternating under the same address
+    let tp = templates_on(0x4840d6, if carrier == 1 { 18 } else { 17 });
+    let alt = if carrier == 2 { Some(templates_on(0x4840d6, 18)) } else { None };
     let mut gs = gaps(tr, thorough);
     if core_only {
         gs.truncate(if thorough { 16 } else { 10 });
@@ -346,7 +378,7 @@ fn explore_traj(tr: &Traj, min_len: usize, depth: usize, thorough: bool, core_on
             }
             // the first report defines time zero: its gap is irrelevant, use only the first two symbols (even / odd)
             if idx[0] < 2 {
-                match check(tr, &tp, &steps[..len], rep) {
+                match check_mixed(tr, &tp, alt.as_ref(), &steps[..len], rep) {
                     Some(f) => {
                         hist[f.min(7)] += 1;
                         cnt += 1;
@@ -414,13 +446,19 @@ pub fn run(ctx: &Ctx, rep: &Report) {
     let pruned = AtomicU64::new(0);
     let hist = std::sync::Mutex::new([0u64; 8]);
     par_items(ctx.threads, cat.len(), |i| {
-        explore_traj(&cat[i], 1, depth, thorough, false, rep, &total, &steps_total, &hist, &pruned);
+        explore_traj(&cat[i], 1, depth, thorough, false, 0, rep, &total, &steps_total, &hist, &pruned);
     });
     // one step deeper on the core gaps (without the alias gaps)
     par_items(ctx.threads, cat.len(), |i| {
-        explore_traj(&cat[i], depth + 1, depth + 1, thorough, true, rep, &total, &steps_total, &hist, &pruned);
+        explore_traj(&cat[i], depth + 1, depth + 1, thorough, true, 0, rep, &total, &steps_total, &hist, &pruned);
     });
-    rep.part("single aircraft", total.load(Ordering::Relaxed), json!({"trajectories": cat.len(), "depth": depth, "reports": steps_total.load(Ordering::Relaxed), "pruned_out_of_range": pruned.load(Ordering::Relaxed)}));
+    // the same position messages carried by DF18, and DF17 / DF18 alternating for one address (core gaps)
+    let every = if thorough { 2 } else { 3 };
+    let subcat: Vec<&Traj> = cat.iter().step_by(every).collect();
+    par_items(ctx.threads, subcat.len() * 2, |i| {
+        explore_traj(subcat[i / 2], 1, depth, thorough, true, 1 + (i % 2) as u8, rep, &total, &steps_total, &hist, &pruned);
+    });
+    rep.part("single aircraft (DF17; DF18 and DF17/DF18 alternating on a sub-catalogue)", total.load(Ordering::Relaxed), json!({"trajectories": cat.len(), "depth": depth, "reports": steps_total.load(Ordering::Relaxed), "pruned_out_of_range": pruned.load(Ordering::Relaxed)}));
     // two aircraft: all merge orders of two 3-report sequences
     let sub: Vec<&Traj> = cat.iter().filter(|t| t.reference_nm != Some(40.0)).step_by((cat.len() / if thorough { 24 } else { 10 }).max(1)).collect();
     let pair_total = AtomicU64::new(0);
